@@ -169,6 +169,28 @@ theorem table_is_columnwise {S : Sem α} {o : BinOp} {cols : List (Vec α)} {oth
   obtain ⟨rc, h1, h2⟩ := mapRes_ok_get h hc
   exact ⟨rc, h2, h1⟩
 
+/-- `scalar <o> table` (scalar, list or tuple on the left): one result column per column, each the *reflected* vector
+    operation on that column — the same shape and column order as `table <o> scalar` -/
+theorem table_reflected_is_columnwise {S : Sem α} {o : BinOp} {cols : List (Vec α)} {other : Operand α}
+    {R : List (Col α)} (h : tableScalarRefl S o cols other = .ok R) :
+    R.length = cols.length ∧
+    ∀ (j : Nat) (c : Vec α), cols[j]? = some c →
+      ∃ rc, R[j]? = some rc ∧ vectorBinary S o true c other = .ok rc := by
+  refine ⟨mapRes_ok_length h, fun j c hc => ?_⟩
+  obtain ⟨rc, h1, h2⟩ := mapRes_ok_get h hc
+  exact ⟨rc, h2, h1⟩
+
+/-- `-table`, `+table`, `abs(table)`: one result column per column, each the unary operation broadcast over that column —
+    shape kept, nothing transposed -/
+theorem table_unary_is_columnwise {β : Type} {f : α → Res β} {cols : List (Vec α)} {R : List (Col β)}
+    (h : tableUnary f cols = .ok R) :
+    R.length = cols.length ∧
+    ∀ (j : Nat) (c : Vec α), cols[j]? = some c →
+      ∃ rc, R[j]? = some rc ∧ broadcast f c.data = .ok rc ∧ rc.length = c.data.length := by
+  refine ⟨mapRes_ok_length h, fun j c hc => ?_⟩
+  obtain ⟨rc, h1, h2⟩ := mapRes_ok_get h hc
+  exact ⟨rc, h2, h1, mapRes_ok_length h1⟩
+
 /-- `table <o> table`: equal widths, and column `j` is `left[j] <o> right[j]` -/
 theorem table_table_is_columnwise {S : Sem α} {o : BinOp} {a b : List (Vec α)} {R : List (Col α)}
     (h : tableTable S o a b = .ok R) :
